@@ -24,7 +24,7 @@ RULE = ("Hypothesis-generated trees (release incl. '%', '=', ':' and Unicode in 
         "significant digits or exponent notation, or a disc list; distinct = SHA-1 of the description. The written tree is then changed in place (other arch, later timestamp, one top-level variant replaced by one sorting first) and written again; re-read snapshot and file are compared with the changed description. Integer timestamps of any magnitude and sign; variant objects created for another tree.")
 ASSUMPTIONS = ["stdlib configparser.RawConfigParser is a correct, independent INI reader",
                "top-level variants whose UID differs from their id are stored under the UID (KF-C04-toplevel-key-id covers the other case)"]
-FLOORS = {"tree": 300, "tree:child-type:variant": 20, "tree:child-type:optional": 20, "tree:child-type:addon": 20, "tree:depth3": 20,
+FLOORS = {"discinfo:quote-at-one-end": 10, "tree": 300, "tree:child-type:variant": 20, "tree:child-type:optional": 20, "tree:child-type:addon": 20, "tree:depth3": 20,
           "tree:dashed-top-uid": 20, "discinfo": 200}
 
 tree_strategy = st.fixed_dictionaries({"desc": tim.tree_desc(), "plan": st.sampled_from([0, 0, 1, 2, 3, 4]), "via_file": st.integers(0, 5).map(lambda i: i == 0),
@@ -44,11 +44,11 @@ def tree_case(case):
             must("dump-valid-tree", obj.dump, path, main_variant=main)
             with open(path) as fo:
                 text = fo.read()
-            again = TreeInfo()
+            again = gen.give_past(TreeInfo(), gen.past_of(text))
             must("load", again.load, path)
         else:
             text = must("dumps-valid-tree", tim.dump_text, obj, main)
-            again = TreeInfo()
+            again = gen.give_past(TreeInfo(), gen.past_of(text))
             must("loads", again.loads, text)
     finally:
         if tmpdir:
@@ -82,8 +82,14 @@ _float = st.one_of(
     st.sampled_from([1e-7, 1e22, -1.5, 1386857206.123456, 1410862874.59, 0.1 + 0.2, 2.0 ** 53 + 2, 5e-324, 1.7976931348623157e308, 1e16, 123456789012345680.0]),
     st.integers(1, 2 ** 33).map(lambda i: i / 100.0),
 )
-_desc_text = st.one_of(st.sampled_from(["Fedora 20", "Red Hat Enterprise Linux 7.0", "x", "it's", 'say "hi" there']), gen.name_text).map(
-    lambda s: s.strip()).filter(lambda s: len(s) > 0 and s.strip("\"'") == s and "\n" not in s and "\r" not in s and len(s.splitlines()) == 1)
+def _wrapped(s):
+    """'wrapped in quotes': the same quote character at both ends"""
+    return len(s) >= 2 and s[0] == s[-1] and s[0] in "\"'"
+
+
+_desc_text = st.one_of(st.sampled_from(["Fedora 20", "Red Hat Enterprise Linux 7.0", "x", "it's", 'say "hi" there', 'Fedora "Rawhide"', "'tis Fedora", 'a"', '"x', "'", '"', "\"a'", 'Rock \'n\' Roll "7"']),
+                       gen.name_text, st.text(st.sampled_from(list("ab \"'")), min_size=1, max_size=5)).map(
+    lambda s: s.strip()).filter(lambda s: len(s) > 0 and not _wrapped(s) and "\n" not in s and "\r" not in s and len(s.splitlines()) == 1)
 disc_strategy = st.fixed_dictionaries({
     "timestamp": _float, "description": _desc_text, "arch": st.one_of(gen.arch_pool, st.sampled_from(["src", "x86_64"])),
     "discs": st.one_of(st.just(["ALL"]), st.lists(st.integers(0, 99), min_size=1, max_size=6)),
@@ -125,7 +131,8 @@ def disc_case(case):
     poison(d), poison(again)
     r = repr(case["timestamp"])
     hard = "e" in r or len(r.replace(".", "").replace("-", "").lstrip("0")) > 12
-    return {"nontrivial": hard or case["discs"] != ["ALL"], "labels": ["hard-float"] if hard else []}
+    edge_quote = case["description"][0] in "\"'" or case["description"][-1] in "\"'"
+    return {"nontrivial": hard or case["discs"] != ["ALL"] or edge_quote, "labels": (["hard-float"] if hard else []) + (["quote-at-one-end"] if edge_quote else [])}
 
 
 def witness_toplevel_key_id():
@@ -148,7 +155,30 @@ def witness_toplevel_key_id():
     return None
 
 
-WITNESSES = {"KF-C04-toplevel-key-id": witness_toplevel_key_id}
+def witness_platform_arch_suffix():
+    import productmd.treeinfo as t
+    ti = t.TreeInfo()
+    ti.release.name, ti.release.short, ti.release.version = "F", "f", "20"
+    ti.tree.arch, ti.tree.build_timestamp = "x86_64", 1
+    ti.tree.platforms.add("xen-x86_64")
+    v = t.Variant(ti)
+    v.id = v.uid = v.name = "S"
+    v.type = "variant"
+    v.paths.packages, v.paths.repository = "p", "r"
+    ti.variants.add(v)
+    ti.images.images["xen-x86_64"] = {"kernel": "a/k"}
+    text = ti.dumps()
+    back = t.TreeInfo()
+    try:
+        back.loads(text)
+    except ValueError as exc:
+        return "tree x86_64 with platform 'xen-x86_64' holding an image is written, its own file is refused on read (%s)" % exc
+    if sorted(back.images.images) != ["xen-x86_64"]:
+        return "tree x86_64 with platform 'xen-x86_64' comes back with image tables %r" % sorted(back.images.images)
+    return None
+
+
+WITNESSES = {"KF-C04-toplevel-key-id": witness_toplevel_key_id, "KF-C04-platform-arch-suffix": witness_platform_arch_suffix}
 
 
 def run(ctx):
